@@ -201,6 +201,7 @@ func checkCmd(args []string) {
 			go func(i int, u *unit) {
 				defer wg.Done()
 				vc.Solve(u.ex.Out, filepath.Join(work, fmt.Sprintf("u%02d", i)), timeout, 6, false)
+				vc.PostProcess(u.ex.Out)
 			}(i, u)
 		}
 		wg.Wait()
